@@ -222,4 +222,4 @@ func verifC05(N, V, maxOther int, secondOrder bool) {
 func VerifH_C05_n3v2() { verifC05(3, 2, 2, true) }
 func VerifH_C05_n4v2() { verifC05(4, 2, 2, true) }
 func VerifH_C05_n4v3() { verifC05(4, 3, 2, false) }
-func VerifH_C05_n5v2() { verifC05(5, 2, 1, false) }
+func VerifH_C05_n5v2() { verifC05(5, 2, 2, false) }
